@@ -65,6 +65,25 @@ Definition check_eshared cn rn imports (sh : eshared) : eshared :=
      evariants := map (check_variant cn rn imports) (evariants sh); edecs := edecs sh;
      erecursive := erecursive sh; eredacted := eredacted sh |}.
 
+(* HashSet<ImportedType> as a duplicate-free list (insertion order kept, set semantics) *)
+Definition imp_eqb (a b : imported) : bool :=
+  str_eqb (base_crate a) (base_crate b) && str_eqb (type_name a) (type_name b).
+Definition imp_mem (x : imported) (l : list imported) : bool := existsb (imp_eqb x) l.
+Definition imp_insert (x : imported) (l : list imported) : list imported :=
+  if imp_mem x l then l else l ++ [x].
+Definition imp_extend (l : list imported) (xs : list imported) : list imported :=
+  fold_left (fun acc x => imp_insert x acc) xs l.
+
+(* reconcile.rs:71-84 (fix: commit in /repo), the closure mapped over the import set when it is put back:
+   serde_renamed.get(&import.type_name).and_then(|by_crate| by_crate.get(&import.base_crate)) - an import of a
+   type that its crate serde-renames gets the new name (a glob import is looked up like any other: `*` is the
+   Rust name of no type) *)
+Definition rename_import (rn : renames) (i : imported) : imported :=
+  match lookup_rename rn (type_name i) (base_crate i) with
+  | Some r => {| base_crate := base_crate i; type_name := r |}
+  | None => i
+  end.
+
 (* Vec::sort() is a stable merge sort; Ord compares id.original: stable insertion sort *)
 Section StableSort.
   Context {A : Type} (key : A -> str).
@@ -91,7 +110,10 @@ Definition reconcile_crate (rn : renames) (cn : str) (pd : parsed) : parsed :=
                          acomments := acomments a; adecs := adecs a; aredacted := aredacted a |}) (p_aliases pd));
      (* reconciled after the aliases (fix: commit in /repo), then sorted with the others (fix: commit in /repo) *)
      p_consts := stable_sort (fun c => original (cid c)) (map (check_const cn rn im) (p_consts pd));
-     p_type_names := p_type_names pd; p_errors := p_errors pd; p_imports := p_imports pd |}.
+     (* put back for file generation, every import under the name the file of its crate defines the type under
+        (fix: commit in /repo); `.collect()` into a HashSet: two imports that get the same name become one *)
+     p_type_names := p_type_names pd; p_errors := p_errors pd;
+     p_imports := imp_extend [] (map (rename_import rn) (p_imports pd)) |}.
 
 (* reconcile.rs:22 reconcile_aliases *)
 Definition reconcile_aliases (cs : crates) : crates :=
